@@ -43,6 +43,11 @@ class Run:
         self.assumptions = []
         self.extra = {}
 
+    def fork(self, name):
+        """a fresh random stream for the streams that follow: what they generate no longer depends on how much randomness the
+        streams before them consumed (which, for streams that run real threads against a changed tree, can depend on timing)"""
+        self.rng = random.Random("%s-%s-%d-%s" % (self.prop, self.tier, self.seed, name))
+
     def count(self, key, n=1):
         self.hist[key] = self.hist.get(key, 0) + n
 
